@@ -1430,7 +1430,7 @@ var w1Flavours = map[string][]string{
 	"C10": {"_", "_", "p_", "jJ_", "r_", "b_", "pb_", "jJb_"},
 	"C01": {"p_", "r_", "r_", "p_", "rf_", "pf_"},
 	"C06": {"e_", "e_", "pe_", "re_"},
-	"C07": {"jJ_", "jJ_", "jJe_"},
+	"C07": {"jJ_", "jJ_", "jJe_", "jJb_"},
 	"C08": {"_", "p_", "ejJ_"},
 	"C09": {"_", "p_", "ejJ_", "r_", "x_", "x_"},
 	"C11": {"_", "_", "p_", "jJ_"},
@@ -1481,7 +1481,7 @@ func w1Gen(c *simrt.Choice, prop, tier string) any {
 		cfg.DupPm = []int{0, 50, 200}[c.Intn(3)]
 		cfg.DelayPm = []int{0, 100, 300}[c.Intn(3)]
 	}
-	if prop == "C10" || prop == "C13" {
+	if prop == "C10" || prop == "C13" || prop == "C07" {
 		cfg.Batch = true // only channels with flavour letter b are batched
 		cfg.BatchLatest = c.Intn(3) == 0
 	}
